@@ -9,5 +9,8 @@ CONSTANTS
   WriterFollowsOwnSCS = FALSE
   HsOrder = "serial"
   HsReadExact = TRUE
+  ScsSids = {0}
+  ReaderScsAnySid = TRUE
+  LazyFlushTypes = {}
 INVARIANTS NoDesync
 CHECK_DEADLOCK FALSE
